@@ -1139,6 +1139,11 @@ async def op_guard(env, ctx, step):
         if scope is not None and env.sess.armed and env.sess.stack:
             env.sess.stats['cleanup_spawns'] += 1
             spawn(env, ctx, scope, key, step['child'])
+        victim = env.tasks.get(step.get('cancel'))
+        if victim is not None and victim is not ctx.task and env.sess.armed and env.sess.stack:
+            env.sess.stats['cleanup_cancels'] += 1
+            env.note_cancel(victim, ('withdrawn',))
+            victim.cancel('withdrawn')
 
 
 async def op_watch(env, ctx, step):
